@@ -27,9 +27,9 @@ TRUSTED = ["hand model ESRVerif/Model/Rank.lean of combine_DL.main (tied by rand
            "sort -V / cat / find / rm of the shell"]
 ASSUMPTIONS = ["no description length is -inf (excluded point: with (-inf, 3) the probabilities do not sum to one; sums of the "
                "values the matching stage writes are never -inf unless a term is)",
-               "the codelen_matches table has at least two rows in total (fewer: numpy returns a 1-D array and "
-               "combine_DL.py:42 raises IndexError; in the pipeline every unique function is its own variant, so "
-               ">=2 uniques give >=2 rows)",
+               "the codelen_matches table has at least one row and the library at least one unique function (an EMPTY table "
+               "is read as shape (1,0) and combine_DL.py:42 raises IndexError; the model returns `none` there and the "
+               "agreement is checked; one-row tables are ordinary tables since fix f575df7)",
                "aifeyn_<n>.txt, all_equations_<n>.txt and codelen_matches_comp<n>.dat have the same number of lines; "
                "indices in column 3 are integers",
                "no -0.0 inputs (np.fmin and == treat the two zeros alike, the bit comparison would not)"]
@@ -54,6 +54,8 @@ def _t7(v):
 def gen_table(rng, mode="normal"):
     """dict(U, npar, rows=[[idx, nll, codelen, aifeyn, [params]]]) — floats already as the files carry them."""
     U = rng.choice([2, 2, 3, 3, 4, 5, 6, 8, 10, 15, 25, 40]) if rng.random() < 0.6 else rng.randint(2, 40)
+    if mode == "one-unique":                      # a library with a single unique function (F16: one-row stage files)
+        U = 1
     npar = rng.choice([0, 1, 1, 2, 2, 3])
     p_nan = rng.choice([0.0, 0.05, 0.15, 0.4])
     p_inf = rng.choice([0.0, 0.05, 0.15, 0.4])
@@ -90,7 +92,7 @@ def gen_table(rng, mode="normal"):
     if mode in ("one-row", "no-row"):
         owners = owners[:1] if mode == "one-row" and owners else ([(0, False)] if mode == "one-row" else [])
     else:
-        while len(owners) < 2:
+        while len(owners) < (1 if mode == "one-unique" else 2):
             owners.append((rng.randrange(U), False))
     if rng.random() < 0.5:
         rng.shuffle(owners)
@@ -554,7 +556,7 @@ def explore(ctx, n, tag, deep=False, plan=None):
     n = len(jobs) if plan else n
     for k in range(0 if plan else n):
         r = rng.random()
-        mode = "allinf" if r < 0.012 else "allnan" if r < 0.024 else "one-row" if r < 0.030 else "no-row" if r < 0.034 else "normal"
+        mode = "allinf" if r < 0.012 else "allnan" if r < 0.024 else "one-row" if r < 0.030 else "no-row" if r < 0.034 else "one-unique" if r < 0.044 else "normal"
         t = gen_table(rng, mode)
         P = rng.choice([1, 1, 1, 2, 3, 4, 5]) if rng.random() < 0.8 else rng.choice([2, 3, 4, 5])
         if rng.random() < 0.1 and t["U"] <= 4:
@@ -659,7 +661,7 @@ def run(ctx):
                                values="reals (to 1e5), +inf, NaN; no -inf, no -0.0",
                                final_table_positions="every row position below %d is occupied by a probability-carrying row of some table "
                                                      "on every seed" % (20000 if deep else 5120))
-    ctx.extra["excluded_points"] = ["a description length of -inf", "fewer than two variant rows in total (IndexError at combine_DL.py:42; "
+    ctx.extra["excluded_points"] = ["a description length of -inf", "no variant row at all / no unique function (IndexError at combine_DL.py:42 / :110; "
                                     "model returns `none`, agreement is checked)"]
 
 
